@@ -361,6 +361,75 @@ def refutes_canonical(I, o, v):
     return False
 
 
+# ---------------------------------------------------------------------- coverage censuses: who touches what the property is about
+def _base_name(n):
+    """function a closure / promoted body / nested item belongs to"""
+    import re
+    return re.split(r'::\{closure|::promoted\[', n)[0]
+
+
+def writers_touched(chk, rule, types, what, also_borrows=True, allow=()):
+    """every function of the crate that assigns to a field of one of `types` (or hands out a `&mut` to one) must be a function this
+    property's interpretations entered: state the property is about is then only changed by code the rules above have judged, and a
+    new setter / `&mut` accessor / constructor added next to the analysed ones is reported instead of being trusted"""
+    from ..interp import Interp
+    from ..mirwalk import is_user_fn, place_base_types, statements
+    n = 0
+    for f in chk.facts['fns']:
+        if not is_user_fn(f) or (f.get('impl') or {}).get('derived'):
+            continue
+        hits = set()
+        for bi, s in statements(f):
+            if s['k'] != 'assign':
+                continue
+            pro, _ = place_base_types(f, s['pl'])
+            # a write *to a field* (no deref after the field projection: `self.len = ..`, not `*self.table_ref = ..`)
+            for i, (t, e) in enumerate(pro):
+                if e['k'] == 'field' and t.get('k') == 'adt' and t.get('name') in types and not any(x['k'] == 'deref' for _, x in pro[i + 1:]):
+                    hits.add('writes a field of %s' % t['name'].split('::')[-1])
+            rv = s['rv']
+            if rv['k'] == 'agg' and rv.get('ak') == 'adt' and rv.get('adt') in types:
+                hits.add('builds a %s' % rv['adt'].split('::')[-1])
+            if also_borrows and rv['k'] in ('ref', 'rawref') and (also_borrows == 'any' or 'Mut' in str(rv.get('bk', '')) + str(rv.get('mut', ''))):
+                pro2, _ = place_base_types(f, rv['pl'])
+                for i, (t, e) in enumerate(pro2):
+                    if e['k'] == 'field' and t.get('k') == 'adt' and t.get('name') in types and not any(x['k'] == 'deref' for _, x in pro2[i + 1:]):
+                        hits.add('borrows a field of %s%s' % (t['name'].split('::')[-1], '' if also_borrows == 'any' else ' mutably'))
+        from ..mirwalk import ctor_refs
+        for nm in ctor_refs(f, set(types)):
+            hits.add('builds a %s' % nm.split('::')[-1])
+        if not hits:
+            continue
+        n += 1
+        ok = f['name'] in Interp.TOUCHED or _base_name(f['name']) in Interp.TOUCHED or f['name'] in allow
+        chk.ob(rule, '%s %s: it is among the functions this check analysed' % (f['name'], ' and '.join(sorted(hits))), ok,
+               'not entered by any interpretation of this property (%s)' % what, f['loc'], nontrivial=False)
+    return n
+
+
+def callers_touched(chk, rule, targets, what, pred=None):
+    """every in-crate caller of one of the `targets` (functions that change what the property is about) must itself have been analysed"""
+    from ..interp import Interp
+    from ..mirwalk import callees, is_user_fn
+    n = 0
+    seen = set()
+    for f in chk.facts['fns']:
+        if not is_user_fn(f) or (f.get('impl') or {}).get('derived'):
+            continue
+        for bi, c, target, loc in callees(f):
+            t = target or c.get('name')
+            if t is None or not (t in targets or c.get('name') in targets or (pred is not None and pred(t))):
+                continue
+            if (f['name'], t) in seen:
+                continue
+            seen.add((f['name'], t))
+            n += 1
+            ok = f['name'] in Interp.TOUCHED or _base_name(f['name']) in Interp.TOUCHED
+            chk.ob(rule, '%s calls %s: it is among the functions this check analysed' % (f['name'], t.split('::')[-1]), ok,
+                   'not entered by any interpretation of this property (%s)' % what, loc, nontrivial=False)
+    return n
+
+
 def entry_pred_is_all_zero(I, pred):
     """does the predicate handed to Iterator::all (a fn item or a closure over &PageTableEntry) hold exactly for an
     all-zero entry?"""
